@@ -54,5 +54,34 @@ PROPS["C20"] = {
     "exhaustive": False,
 }
 
+PROPS["C10"] = {
+    "budget": {"quick": 50, "thorough": 480},
+    "rule": "type universe closed under array, tuple(2-3), function(0-2 params), mut, struct(fields of {a,b,c}), union(2-3) over {bool,int,float,string,(),any,!}: depth <= 1 enumerated completely "
+            "(all ordered pairs; all triples whose two premises hold; every law instance), depth 2-3 sampled as chains A <= B <= C built by widening. Each law of the statement is a predicate over answers of the real "
+            "Type::matches / | / conjoin / ==; semantic soundness: every generated value of A (and every value whose runtime type matches B) must belong to B by the harness's own membership test. "
+            "Only the stated direction of each law is demanded. distinct_nontrivial = distinct types, ordered pairs, chains and (value, type) soundness instances evaluated.",
+    "assumptions": COMMON_ASSUME + ["membership of a value in a type is judged by the harness (contents recursively; functions by declared signature under the harness's own subtype relation; cells by exact declared type and current content)"],
+    "floors": {"quick": {"law:transitive:premise": 300000, "law:soundness:premise": 5000, "law:union-below-iff": 100000, "law:mut-invariant:premise": 100, "law:conjoin-lower-bound:non-never": 1000},
+               "thorough": {"law:transitive:premise": 1000000, "law:soundness:premise": 50000, "law:union-below-iff": 100000, "law:mut-invariant:premise": 100, "law:conjoin-lower-bound:non-never": 1000}},
+    "technique": "runtime law monitor over the public Type API (exhaustive depth-1 universe + sampled deeper chains) with a value-membership soundness oracle",
+    "level_text": "All laws are evaluated through the real Type API on a completely enumerated depth-1 universe (every pair, every premise-satisfying triple) and on sampled deeper chains; soundness is checked with generated values. Exhaustive for depth <= 1, exploration beyond.",
+    "level_note": "exhaustive only to type depth 1; deeper types are sampled; trusts the harness's membership oracle",
+    "exhaustive": False,
+}
+
+PROPS["C15"] = {
+    "budget": {"quick": 50, "thorough": 420},
+    "rule": "types from the depth-1 universe (complete) and sampled types of depth 2-4 focused on unions inside function results, mut contents, array elements, parameters and struct fields; each type is rebuilt and printed "
+            "8 (quick) / 32 (thorough) times so several member/field orders occur, and every printed text is parsed back: the result must be canonically identical (harness comparison) and == to the original. "
+            "Additionally `[elements]~ ? T $]` runs in-language for the types and the selected elements are compared with harness membership. distinct_nontrivial = distinct types.",
+    "assumptions": COMMON_ASSUME + ["canonical type comparison (sorted members / fields) is the harness's, so the check does not inherit a broken =="],
+    "floors": {"quick": {"evaluations": 100000, "shape:union_positions": 6, "types_seen_in_several_print_orders": 500, "type_filter_nonempty_selection": 200},
+               "thorough": {"evaluations": 1000000, "shape:union_positions": 6, "types_seen_in_several_print_orders": 500, "type_filter_nonempty_selection": 200}},
+    "technique": "runtime round-trip monitor: build -> print (several hash orders) -> parse -> canonical comparison; type filter executed in-language",
+    "level_text": "Every type of the depth-1 universe and tens of thousands of deeper types are printed several times (different hash orders) and re-parsed through the real API; the in-language type filter is run for them. Exploration; exhaustive for depth <= 1.",
+    "level_note": "print orders are whatever the runtime's random hash keys produce in 8/32 rebuilds, not all permutations",
+    "exhaustive": False,
+}
+
 # properties deliberately not claimed (reason each); anything else missing from PROPS is simply not built yet
 NOT_APPLICABLE = {}
